@@ -279,6 +279,12 @@ def parse (f : Facts) : PM' (List ParsedEntry) := fun st =>
     | .error e => .error e
     | .ok (parsed, st) =>
       let all := parsed.flatMap (·.2)
+      -- a generated function must not collide with a declaration that stays in the package; the
+      -- converter interfaces themselves are replaced by the generated code
+      let replaced := entries.map (·.obj.name)
+      match all.find? (fun m => m.opts.receiver == "" && f.env.pkgScope m.decl.name && !replaced.contains m.decl.name) with
+      | some m => failTwice s!"{m.decl.pos}: {m.decl.name} is already declared in the package" st
+      | none =>
       -- resolve converters method by method, in `allMethods` order
       let rec resolveAll : List (IntfEntry × List ParsedMethod) → List ParsedEntry → PState →
           Except (Halt × PState) (List ParsedEntry × PState)
@@ -307,29 +313,32 @@ def parse (f : Facts) : PM' (List ParsedEntry) := fun st =>
                                      | none => [] } }
         .ok (withDocs, st)
 
-/-- `CreateFunctions` over all entries (first error stops the run) -/
-def createAll (f : Facts) : List ParsedEntry → PM' (List (List Built))
-  | [], st => .ok ([], st)
-  | pe :: rest, st =>
-    let rec fns : List MethodEntry → PState → Except (Halt × PState) (List Built × PState)
-      | [], st => .ok ([], st)
-      | m :: ms, st =>
-        match createFunction f.env f.eng m with
+/-- `CreateFunctions` over all entries (first error stops the run); `built` are the keys of the
+functions built so far (`FunctionBuilder.built`) -/
+def createAllFrom (f : Facts) : List String → List ParsedEntry → PM' (List (List Built))
+  | _, [], st => .ok ([], st)
+  | built, pe :: rest, st =>
+    let rec fns : List String → List MethodEntry → PState → Except (Halt × PState) ((List Built × List String) × PState)
+      | built, [], st => .ok (([], built), st)
+      | built, m :: ms, st =>
+        match createFunction f.env f.eng m built with
         | .panic s => .error (.panic s, st)
         | .error msgs => .error (.error, { st with stderr := st.stderr ++ msgs ++ msgs })
         | .ok b =>
           match b.lateError with
           | some msg => .error (.error, { st with stderr := st.stderr ++ b.warnings ++ [msg, msg] })
           | none =>
-          match fns ms { st with stderr := st.stderr ++ b.warnings } with
+          match fns (funcKey f.env m :: built) ms { st with stderr := st.stderr ++ b.warnings } with
           | .error e => .error e
-          | .ok (bs, st') => .ok (b :: bs, st')
-    match fns pe.methods st with
+          | .ok ((bs, built'), st') => .ok ((b :: bs, built'), st')
+    match fns built pe.methods st with
     | .error e => .error e
-    | .ok (bs, st') =>
-      match createAll f rest st' with
+    | .ok ((bs, built'), st') =>
+      match createAllFrom f built' rest st' with
       | .error e => .error e
       | .ok (bss, st'') => .ok (bs :: bss, st'')
+
+def createAll (f : Facts) : List ParsedEntry → PM' (List (List Built)) := createAllFrom f []
 
 /-- observable result of the front half (L3 + L4 + L5) -/
 structure FrontResult where
